@@ -134,11 +134,25 @@ Proof.
   split; [reflexivity|]. intros o Ht Hn. destruct (N.ltb_spec ps o) as [?|Hle]; [assumption|]. exfalso. apply Hn. apply T; assumption.
 Qed.
 
-Theorem quiescent_all_effects_proved g c l s : cfg_ok c -> runG g c init l = Some s -> quiescentb s = true ->
+(* all effects, when the view storage is flushed last *)
+Theorem resume_all_effects_proved c l s p s' : cfg_ok c -> c_viewlast c = true -> runG false c init l = Some s ->
+  step c s (RInitOk p) = Some s' ->
+  rd (sr s') = pos (sp s') /\
+  forall o, trig (lg (sp s')) o = true ->
+            (~ In o (eff (sp s')) \/ (mailev c (lg (sp s')) o = true /\ ~ In o (mails (sp s')))) -> rd (sr s') < o.
+Proof.
+  intros Hc Hv H Hs. pose proof (position_le_effects_proved _ _ _ Hc H) as T.
+  pose proof (position_le_mails_viewlast_proved _ _ _ Hc Hv H) as Tm.
+  open_state s. cbn in Hs. guards Hs. inversion Hs; subst; clear Hs. bools. subst. cbn in *.
+  split; [reflexivity|]. intros o Ht Hn. destruct (N.ltb_spec ps o) as [?|Hle]; [assumption|]. exfalso.
+  destruct Hn as [Hn|[Hm Hn]]; apply Hn; [apply T | apply Tm]; assumption.
+Qed.
+
+Lemma quiescent_inv g c s : Inv g c s -> quiescentb s = true ->
   forall o, trig (lg (sp s)) o = true ->
   In o (eff (sp s)) /\ (g = true -> mailev c (lg (sp s)) o = true -> In o (mails (sp s))).
 Proof.
-  intros Hc H Hq o Ht. pose proof (run_inv _ _ _ _ Hc H) as [HS _ HE].
+  intros [HS _ HE] Hq o Ht.
   apply trig_le_len in Ht as Hlen. unfold quiescentb in Hq.
   destruct s as [P R J G]. destruct HS, HE. cbn in *.
   destruct (r R) eqn:Er; try discriminate. destruct (pc J) eqn:Epc; try discriminate. destruct (q J) eqn:Eq; try discriminate.
@@ -151,4 +165,17 @@ Proof.
     destruct (i_j2 ltac:(assumption) ltac:(assumption) o ltac:(lia) Ht) as [A|[A|A]]; [exact A| rewrite Hbv in A; destruct A | discriminate A].
   - intros Hg Hm. destruct (N.le_gt_cases o (g_init G)) as [Hle|Hgt]; [apply i_j1m; assumption|].
     destruct (i_j2m Hg ltac:(assumption) ltac:(assumption) o ltac:(lia) Ht Hm) as [A|[A|A]]; [exact A| rewrite Hbm in A; destruct A | discriminate A].
+Qed.
+
+Theorem quiescent_all_effects_proved g c l s : cfg_ok c -> runG g c init l = Some s -> quiescentb s = true ->
+  forall o, trig (lg (sp s)) o = true ->
+  In o (eff (sp s)) /\ (g = true -> mailev c (lg (sp s)) o = true -> In o (mails (sp s))).
+Proof. intros Hc H. apply quiescent_inv. exact (run_inv _ _ _ _ Hc H). Qed.
+
+Theorem quiescent_all_effects_viewlast_proved c l s : cfg_ok c -> c_viewlast c = true -> runG false c init l = Some s ->
+  quiescentb s = true -> forall o, trig (lg (sp s)) o = true ->
+  In o (eff (sp s)) /\ (mailev c (lg (sp s)) o = true -> In o (mails (sp s))).
+Proof.
+  intros Hc Hv H Hq o Ht. apply (runG_viewlast _ _ Hv) in H.
+  destruct (quiescent_all_effects_proved true c l s Hc H Hq o Ht) as [A B]. split; [exact A | exact (B eq_refl)].
 Qed.
